@@ -155,16 +155,21 @@ CHECKS.update({
         "technique": "Coq-proved trace monitor evaluated on recorded real traces + trace correspondence with the model",
     },
     "C03": {
-        "text": "Crash-point enumeration from recorded real traces plus partial Coq proof: every workload runs on the real store "
-                "under an LD_PRELOAD recorder; every prefix of the recorded mutating calls (every call boundary, and byte cuts "
-                "inside writes) is materialised as a directory and opened by the real code, which must succeed and read, key by "
-                "key, the acknowledged state with the operation in flight applied or not; the recorded trace is compared per "
-                "operation with the model's. Proved in Coq: recoverability to the acknowledged state at every operation boundary "
-                "of every script (merges included), atomicity of set/delete (one append; before = without, after = with), "
-                "recovery only creates a file. Not yet proved: crash points inside a merge pass and the byte-level prefix lemma.",
-        "design_ref": "DESIGN.md section 8, C03", "note": STORE_NOTE + " Crash model: a killed process leaves a prefix of its calls, "
-                "cut at any byte of the last write.",
-        "technique": "Coq proof (operation boundaries, set/delete atomicity) + exhaustive crash-image enumeration on recorded traces",
+        "text": "Machine-checked proof over a byte-level file-system model plus crash-point enumeration on the real store. Proved in "
+                "Coq (Store/CodecProofs, Crash, CrashScript, CrashMerge): decoding inverts encoding and every strict prefix of a record "
+                "or hint decodes as end-of-input; for EVERY ready script - sets, deletes, reopens and merge passes - every crash "
+                "image of its system-call trace (any call boundary, the last write cut at any byte) reads as a directory that opens "
+                "to the map after the first n operations: acknowledged operations are all there, the one in flight entirely or not "
+                "at all; a merge pass is safe because its outputs only hold copies, are read through hint files written after the "
+                "data, and the selected files are removed in ascending order so the removed set stays closed downwards. The tie to "
+                "the code: every workload runs on the real store under an LD_PRELOAD recorder, the recorded trace is compared per "
+                "operation with the model's, and every prefix of the recorded calls (every boundary, byte cuts inside writes) is "
+                "materialised as a directory and opened by the real code, which must read the acknowledged state with the operation "
+                "in flight applied or not.",
+        "design_ref": "DESIGN.md section 0.3 and 8, C03", "note": STORE_NOTE + " Crash model: a killed process leaves a prefix of its calls, "
+                "cut at any byte of the last write; traces must be well-formed (lengths below 2^64, timestamps in i64). Several "
+                "crashes in a row are not composed in Coq.",
+        "technique": "Coq proof (byte-level crash images of every script incl. merge passes) + exhaustive crash-image enumeration on recorded real traces",
     },
     "C09": {
         "text": "Power-loss image enumeration from recorded real traces under sync=always plus partial Coq proof: for every prefix of "
